@@ -307,6 +307,11 @@ pub fn pool() -> Vec<Val> {
     for i in [0isize, 1, -1, 2, 127, 255, 65536, 1 << 31, -(1 << 31), (1 << 31) - 1, 1 << 53, -(1 << 53), isize::MAX, isize::MIN, isize::MAX - 1, isize::MIN + 1, 1_000_000_007] {
         v.push(int(i));
     }
+    // small values in the big-integer representation (results of big-integer arithmetic are never
+    // normalised back: `$big - $big` is BigInt(0)) and the i64 boundaries as big integers
+    for b in ["0", "1", "255", "-9223372036854775808", "9223372036854775807"] {
+        v.push(bigs(b));
+    }
     for b in ["5", "-1", "9223372036854775808", "-9223372036854775809", "18446744073709551615", "18446744073709551616", "-18446744073709551616", "1000000000000000000000000000000"] {
         v.push(bigs(b));
     }
@@ -664,6 +669,8 @@ fn val_to_jq(v: &Val) -> String {
         Val::Num(Num::Int(i)) if *i == isize::MIN => "(-9223372036854775807 - 1)".into(),
         Val::Num(Num::Int(i)) if *i < 0 => format!("({i})"),
         Val::Num(Num::Int(i)) => i.to_string(),
+        // keep the big-integer representation also for values a literal would read as machine integer
+        Val::Num(Num::BigInt(b)) if i64::try_from(&**b).is_ok() => format!("(1180591620717411303424 - 1180591620717411303424 + ({b}))"),
         Val::Num(Num::BigInt(b)) => format!("({b})"),
         Val::Num(Num::Float(f)) if f.is_nan() => "nan".into(),
         Val::Num(Num::Float(f)) if f.is_infinite() => if *f > 0.0 { "infinite".into() } else { "(-infinite)".into() },
